@@ -33,7 +33,7 @@ PLAN = {
         {"name": "h_IsWellFormedPackage", "enforce": "IsWellFormedPackage", "defines": ["C29_TU_WF"], "twins": [{"define": "TWIN_26", "expect": "postcondition"}]},
         {"name": "h_IsTopoSortedPackage", "enforce": "IsTopoSortedPackage", "loop_contracts": True, "defines": ["C29_TU_TOPO"], "twins": [{"define": "TWIN_SELF", "expect": "postcondition|loop_invariant"}]},
     ],
-    "native": {"src": "replay.cpp", "c_src": "native_slices.c", "repo_sources": ["src/policy/packages.cpp"], "diff_n_quick": 5000, "diff_n_thorough": 500000,
+    "native": {"src": "replay.cpp", "c_src": "native_slices.c", "repo_sources": ["src/policy/packages.cpp"], "diff_n_quick": 5000, "diff_n_thorough": 150000,
                "libs": ["libbitcoin_common.a", "libbitcoin_consensus.a", "libbitcoin_util.a", "libbitcoin_clientversion.a", "libbitcoin_crypto.a", "/repo/_build/src/secp256k1/lib/libsecp256k1.a"]},
     "not_covered": ["IsConsistentPackage and IsChildWithParents (bodies made of std::transform / std::inserter / std::all_of with lambdas over unordered sets: rendering them would be a rewrite, not an extraction) -- their verdicts are inputs here",
                     "everything after the well-formedness gate: AcceptPackage, the 'no dangling children' and result-reporting clauses of the statement (mempool histories)"],
